@@ -85,7 +85,7 @@ def gen_dist(rng, k, binary=False, gate=None):
         ws = [rng.choice([1, 2, 3, 4]) for _ in sup]
         ps = [w / sum(ws) for w in ws]
     # representation: sparse (support only) or dense (every combination stored, zeros explicit)
-    return {'k': k, 'outs': sup, 'ps': ps, 'pattern': pattern, 'klass': rng.choice(['str', 'int']), 'dense': rng.random() < 0.3}
+    return {'k': k, 'outs': sup, 'ps': ps, 'pattern': pattern, 'klass': rng.choice(['str', 'int']), 'dense': rng.choice([False, False, False, False, True, True, 'big'])}
 
 
 def generate(rng, tier):
@@ -105,6 +105,8 @@ def generate(rng, tier):
             d = gen_dist(rng, 2)
             while cls == 'PID_GK' and len(d['outs']) > 12:
                 d = gen_dist(rng, 2)
+        if d.get('dense') == 'big' and cls not in ('PID_WB', 'PID_MMI', 'PID_GK', 'PID_PM', 'PID_RDR'):
+            d['dense'] = True          # enlarged alphabets blow up the optimiser-based measures
         cases.append({'d': d, 'cls': cls, 'perm': rng.random() < 0.6, 'explicit': rng.random() < 0.5})
     # Markov chains source -> source -> target, in both source orders, for the measures built on paths / projections
     for i in range(4 if tier == 'quick' else 30):
@@ -125,7 +127,22 @@ def mk(d, perm=None):
         x = dit.Distribution([''.join(map(str, o)) for o in outs], list(d['ps']))
     else:
         x = dit.Distribution([tuple(o) for o in outs], list(d['ps']))
-    if d.get('dense'):
+    x = densify(x, d)
+    return x
+
+
+def densify(x, d):
+    """dense representations: every combination stored; 'big' also enlarges every alphabet by a symbol that never occurs"""
+    import dit
+    from dit.samplespace import CartesianProduct
+    import itertools
+    if d.get('dense') == 'big':
+        extra = '9' if d['klass'] == 'str' else 9
+        alphs = [list(a) + [extra] for a in x.alphabet]
+        kw = {} if d['klass'] == 'str' else {'product': itertools.product}
+        x = dit.Distribution(list(x.outcomes), list(x.pmf), sample_space=CartesianProduct(alphs, **kw))
+        x.make_dense()
+    elif d.get('dense'):
         x.make_dense()
     return x
 
@@ -136,9 +153,7 @@ def mk_raw(d):
         x = dit.Distribution([''.join(map(str, o)) for o in d['outs']], list(d['ps']))
     else:
         x = dit.Distribution([tuple(o) for o in d['outs']], list(d['ps']))
-    if d.get('dense'):
-        x.make_dense()
-    return x
+    return densify(x, d)
 
 
 def node_pos(node):
